@@ -93,17 +93,17 @@ def make_deep(rng):
     expressions, parentheses and if-expressions nest explicitly.  Legal, unusual, and hard on anything recursive
     between the parser and the cache (pickle)."""
     i = rng.randrange(10_000, 99_999)
-    kind = rng.choice(["sum", "sum", "product", "parens", "ifs"])
-    n = rng.choice([30, 120, 240, 320, 450, 600])
+    kind = rng.choice(["sum", "sum", "sum", "sum", "sum", "sum", "product", "parens", "ifs"])
+    n = rng.choice([240, 320, 320, 450])  # (pickle reaches the interpreter's recursion limit at about 300 terms)
     if kind == "sum":
         expr = " + ".join(["a"] * n)
     elif kind == "product":
         expr = " * ".join(["a", "b"] * (n // 2))
     elif kind == "parens":
-        n = min(n, 120)
+        n = min(n, 40)  # (parsing nested parentheses is slow: 0.3 s for 120 levels)
         expr = "(" * n + "a" + " + 1)" * n
     else:
-        n = min(n, 120)
+        n = min(n, 80)
         expr = "".join("if a > %d then %d else " % (k, k) for k in range(n)) + "0"
     return ("model Deep%d\n  Real a(start = %d);\n  Real b;\n  Real y;\nequation\n  der(a) = -a;\n  b = %d;\n  y = %s;\n"
             "end Deep%d;\n" % (i, rng.randrange(1, 90), rng.randrange(1, 90), expr, i))
@@ -154,8 +154,8 @@ def make_pool(rng, n_valid=5, n_broken=2, n_ws=1):
     pool = []
     for k in range(n_valid):
         pool.append({"text": make_valid(rng, k if k < len(TEMPLATES) else None), "broken": False, "base": None})
-    if rng.random() < 0.4:
-        pool[rng.randrange(n_valid)] = {"text": make_deep(rng), "broken": False, "base": None}
+    if rng.random() < float(__import__("os").environ.get("VERIF_DEEP_SHARE", "0.04")):  # (deep recursion is expensive: every level costs the interpreter fresh stack chunks)
+        pool[rng.randrange(n_valid)] = {"text": make_deep(rng), "broken": False, "base": None, "deep": True}
     for k in range(n_ws):
         b = rng.randrange(n_valid)
         pool.append({"text": text_variant(pool[b]["text"], rng), "broken": False, "base": b})
